@@ -1165,7 +1165,7 @@ func (g *apiGen) call() string {
 	}
 }
 
-func genAPI(r *rng) string { return genAPIMode(r, false) }
+func genAPI(r *rng) string { return genAPIMode(r, true) }
 
 // genAPIFull uses the whole operator grammar (model-free oracles; the
 // correspondence family switches to it once Match/Apply/Project are modelled)
